@@ -876,3 +876,47 @@ Definition run_conc (inp : list Z) : list Z :=
       end
   | _ => bad_input
   end.
+
+(* ---- C10: threads on a MultiPort over EchoPorts (fan-in) ---- *)
+Require Import Mido.Model.ConcMulti.
+Fixpoint in_mops (n : nat) (l : list Z) : option (list mop * list Z) :=
+  match n with
+  | O => Some ([], l)
+  | S k =>
+      match l with
+      | 0 :: sub :: r => match in_msg r with
+                         | Some (m, r1) => match in_mops k r1 with Some (os, r') => Some (MSend (Z.to_nat sub) m :: os, r') | None => None end
+                         | None => None
+                         end
+      | 1 :: b :: r => match in_mops k r with Some (os, r') => Some (MRecv (negb (b =? 0)) :: os, r') | None => None end
+      | 2 :: r => match in_mops k r with Some (os, r') => Some (MIterPending [] :: os, r') | None => None end
+      | _ => None
+      end
+  end.
+Fixpoint in_mprogs (n : nat) (l : list Z) : option (list (list mop) * list Z) :=
+  match n with
+  | O => Some ([], l)
+  | S k => match l with
+           | c :: r => match in_mops (Z.to_nat c) r with
+                       | Some (os, r1) => match in_mprogs k r1 with Some (ps, r') => Some (os :: ps, r') | None => None end
+                       | None => None
+                       end
+           | [] => None
+           end
+  end.
+Definition out_mthread (th : mthread) : list Z :=
+  (match mat th with MRaised e => [2; exn_code e] | MStart => (match mprog th with [] => [0; 0] | _ => [1; 0] end) | _ => [1; 0] end)
+  ++ zlen (mresults th) :: flat_map out_result (mresults th).
+(* [nsubs; nthreads; per thread: nops ops...; schedule...] *)
+Definition run_conc_multi (inp : list Z) : list Z :=
+  match inp with
+  | ns :: nt :: r =>
+      match in_mprogs (Z.to_nat nt) r with
+      | Some (progs, sched) =>
+          let '(s, ts) := mrun (map Z.to_nat sched) (minit (Z.to_nat ns) (fun t => nth t progs [])) in
+          flat_map (fun t => out_mthread (ts t) ++ [-9]) (seq 0 (length progs))
+          ++ flat_map (fun i => out_msgs (mq s i)) (seq 0 (S (Z.to_nat ns))) ++ [Z.of_nat (msleeps s)]
+      | None => bad_input
+      end
+  | _ => bad_input
+  end.
